@@ -85,6 +85,15 @@ Definition mut_id {V} (m : mutation V) : bytes :=
 Definition muts_ids_nul_free {V} (ms : list (mutation V)) : bool :=
   forallb (fun m => nul_free (mut_id m)) ms.
 
+(* per-id chained change sequences - what Store.OnChange delivers under any
+   interleaving of writers: each change's before value is the stored value *)
+Fixpoint chain_ok {V} (s : vstore V) (cs : list (change V)) : Prop :=
+  match cs with
+  | [] => True
+  | c :: r => st_get (fst (fst c)) s = snd (fst c) /\ nul_free (fst (fst c)) = true /\
+              chain_ok (apply_change s c) r
+  end.
+
 (* ---- C14: query-change callbacks ---- *)
 (* some index key of the value differs between before and after *)
 Definition key_changed {V} (idxs : list (index V)) (c : change V) : bool :=
